@@ -196,6 +196,15 @@ Definition verdict_kf (ok : bool) (clause : string) (finding : string) : sx := L
 Definition unit_fn (x : sx) : str := sx_str (sx_nth 1 x).
 Definition unit_arg (x : sx) (n : nat) : sx := sx_nth (2 + n) x.
 
+(* a verdict tagged with the index of the operation it is about *)
+Definition at_request (v : sx) (i : nat) : sx :=
+  match v with
+  | L [a; b] => L [a; b; A []; of_nat i]
+  | L [a; b; c] => L [a; b; c; of_nat i]
+  | _ => v
+  end.
+
+
 (* ---- C15 (unit): the range decision and arithmetic over a resource of the given length ---- *)
 Definition parse_cr_value (s : str) : option (Z * Z * Z) :=
   (* "bytes f-l/n" *)
